@@ -49,3 +49,10 @@ package token
 //@   requires p != nil
 //@   ensures [counts-the-secret] calls(Load) == 1 && unbox(arg(Load, 1), string) == secret && (!ret(Load, 1) ==> calls(Store) == 1 && unbox(arg(Store, 1), string) == secret && *unbox(arg(Store, 2), ptr(uint64)) == 1)
 //@   ensures [history-reset-only-after-the-period] (calls(Range) == 1) == (p.resetTime + p.resetDuration < ret(timex.Now))
+
+// newParser: the parser validates signature and time claims with the library's defaults - every HMAC variant the
+// library verifies under the secret is admitted - and reads numbers exactly (UseJSONNumber); no further option
+// narrows what a correctly signed token may be.
+//@ func newParser
+//@   prop C04
+//@   ensures [library-defaults-plus-exact-numbers] calls(jwt.NewParser) == 1 && result == ret(jwt.NewParser) && len(arg(jwt.NewParser, 0)) == 1 && calls(jwt.WithJSONNumber) == 1 && arg(jwt.NewParser, 0)[0] == ret(jwt.WithJSONNumber) && calls(jwt.WithValidMethods) == 0
